@@ -323,6 +323,10 @@ Proof.
   rewrite Q. reflexivity.
 Qed.
 
+Theorem based_rows_no_overflow rows : forallb row_fits rows = true ->
+  forall row s, In row rows -> based_number row s = based_number_raw row s.
+Proof. intros F row s Hin. apply based_no_overflow. rewrite forallb_forall in F. exact (F row Hin). Qed.
+
 (* ------------------------------------------------------------------ a PRQL spelling for every string value *)
 
 (* "..." with backslash and double quote escaped by a backslash *)
